@@ -1,0 +1,58 @@
+//go:build verif
+
+package proxy
+
+import (
+	"context"
+	"net"
+	"time"
+
+	"go.minekube.com/gate/pkg/edition/java/netmc"
+	"go.minekube.com/gate/pkg/edition/java/proto/packet"
+	"go.minekube.com/gate/pkg/edition/java/proto/state"
+	"go.minekube.com/gate/pkg/edition/java/proxy/phase"
+	"go.minekube.com/gate/pkg/gate/proto"
+)
+
+// Exports for the external verification harness of the login plugin message
+// bookkeeping (C13). Thin constructor and wrappers only: no logic lives here.
+
+// VerifLoginInbound is a real loginInboundConn over a real netmc.MinecraftConn
+// (login state) on the given net.Conn, as the handshake session handler creates it.
+type VerifLoginInbound struct {
+	conn netmc.MinecraftConn
+	l    *loginInboundConn
+}
+
+// VerifNewLoginInbound builds the connection; nothing reads from raw.
+func VerifNewLoginInbound(raw net.Conn, protocol proto.Protocol) *VerifLoginInbound {
+	conn, _ := netmc.NewMinecraftConn(context.Background(), raw, proto.ServerBound,
+		30*time.Second, 30*time.Second, -1, nil)
+	conn.SetProtocol(protocol)
+	conn.SetType(phase.Vanilla)
+	conn.SetState(state.Login)
+	return &VerifLoginInbound{
+		conn: conn,
+		l:    newLoginInboundConn(newInitialInbound(conn, raw.LocalAddr(), packet.LoginHandshakeIntent)),
+	}
+}
+
+// Conn is the public LoginPhaseConnection handed to PreLoginEvent subscribers.
+func (v *VerifLoginInbound) Conn() LoginPhaseConnection { return v.l }
+
+// Response is loginInboundConn.handleLoginPluginResponse (what the session handlers
+// call from the client read loop for a LoginPluginResponse packet).
+func (v *VerifLoginInbound) Response(id int, success bool, data []byte) error {
+	return v.l.handleLoginPluginResponse(&packet.LoginPluginResponse{ID: id, Success: success, Data: data})
+}
+
+// EventFired is loginInboundConn.loginEventFired (called once the PreLoginEvent returned).
+func (v *VerifLoginInbound) EventFired(onAllMessagesHandled func() error) error {
+	return v.l.loginEventFired(onAllMessagesHandled)
+}
+
+// Cleanup is loginInboundConn.cleanup.
+func (v *VerifLoginInbound) Cleanup() { v.l.cleanup() }
+
+// Close closes the client connection.
+func (v *VerifLoginInbound) Close() error { return v.conn.Close() }
